@@ -71,6 +71,26 @@ pub fn programs(tier: Tier) -> Vec<Prog> {
   }
   v.push(Prog { text: "r := 1..=5".into(), family: "range:incl:literal".into(), must_run: true });
   v.push(Prog { text: "r := 2..2..10".into(), family: "range:step:literal".into(), must_run: true });
+  // operators over untyped (f64 / bool) literals as the whole program, with operands that make operand order visible: the last plan step
+  // is the operator itself, so one solve of the rebuilt plan executes the rebuilt function on the decoded constants
+  for op in ["+", "-", "*", "/", "%", "^", "==", "!=", "<", "<=", ">", ">="] {
+    for (nm, l, r) in [("scalars", "7", "2"), ("vectors", "[7 9 4]", "[2 3 8]"), ("scalar-vector", "7", "[2 3 8]"), ("vector-scalar", "[7 9 4]", "2"), ("matrices", "[7 9; 4 6]", "[2 3; 8 5]"), ("matrix-row", "[7 9; 4 6]", "[2 3]"), ("matrix-column", "[7 9; 4 6]", "[2; 3]")] {
+      v.push(Prog { text: format!("{} {} {}", l, op, r), family: format!("bare-binop:{}:{}", nm, op), must_run: false });
+    }
+  }
+  for op in ["&&", "||", "⊕"] { for (nm, l, r) in [("scalars", "true", "false"), ("vectors", "[true false true]", "[false false true]")] { v.push(Prog { text: format!("{} {} {}", l, op, r), family: format!("bare-binop:{}:{}", nm, op), must_run: false }); } }
+  for (nm, t) in [("neg-scalar", "-(7)"), ("neg-vector", "-[7 9 4]"), ("not", "!true"), ("not-vector", "![true false]"), ("transpose", "[1 2; 3 4; 5 6]'"), ("matmul", "[1 2; 3 4] ** [5 6; 7 8]"), ("matmul-vector", "[1 2; 3 4] ** [5; 6]"), ("dot", "[1 2 3] · [4 5 6]"),
+    ("hcat", "[[1 2] [3 4]]"), ("vcat", "[[1 2]; [3 4]]"), ("union", "{1,2} ∪ {3}"), ("difference", "{1,2,3} ∖ {2}"), ("subset", "{1} ⊆ {1,2}"), ("member", "2 ∈ {1,2}"), ("string-eq", "\"a\" == \"b\""), ("sin", "math/sin(0.5)"), ("atan2", "math/atan2(1, 2)"), ("sum-column", "stats/sum/column([1 2; 3 4])")] {
+    v.push(Prog { text: t.to_string(), family: format!("bare-expr:{}", nm), must_run: false });
+  }
+  // every range form over literals and over untyped variables, with ends on and off the grid (these run from bytecode on this tree)
+  for (nm, body) in [("excl", "1..6"), ("incl", "1..=6"), ("step-excl", "1..2..9"), ("step-incl", "1..2..=9"), ("step-excl-off-grid", "1..3..9"), ("step-incl-off-grid", "1..3..=9"), ("step-fraction", "0..0.5..=2"), ("excl-fraction", "0.5..3.5")] {
+    v.push(Prog { text: format!("r := {}", body), family: format!("range:{}:f64-literal", nm), must_run: true });
+    // the bare expression as the whole program: the last plan step is then the range function itself
+    v.push(Prog { text: body.to_string(), family: format!("range:{}:bare", nm), must_run: false });
+    let vb = body.replacen("1", "a", 1).replace("9", "b").replace("6", "b");
+    v.push(Prog { text: format!("a := 1\nb := {}\nr := {}", if body.contains('9') { 9 } else { 6 }, vb), family: format!("range:{}:f64-variables", nm), must_run: false });
+  }
   // (5) literals and variable chains
   for (nm, lit) in [("f64", "1.5"), ("int", "42"), ("u8", "200u8"), ("u64", "7u64"), ("f32", "2.5f32"), ("hex", "0xff"), ("bin", "0b101"), ("oct", "0o17"), ("string", "\"hello\""), ("bool", "true"), ("rational", "1/3"), ("complex", "1+2i"), ("neg", "-3"), ("sci", "1.5e2")] {
     v.push(Prog { text: format!("x := {}", lit), family: format!("literal:{}", nm), must_run: !matches!(nm, "rational" | "complex") });
@@ -184,6 +204,15 @@ impl UnitRunner for C06 {
         let c2 = canon(&v2);
         out.set("families_reproduced", &fam_key(&p.family));
         if c1 != c2 { out.fail(format!("C06|different-result|run|{}", fam_key(&p.family)), case.clone(), format!("interpreter: {} ; bytecode in a fresh interpreter: {}", c1.short(), c2.short())); }
+        else if !p.text.contains(" = ") && !p.text.contains("+=") && !p.text.contains("-=") && !p.text.contains("*=") && !p.text.contains("/=") {
+          // one solve of the rebuilt plan (see the note at the other interpreters below)
+          out.evaluations += 1;
+          match catch_unwind(AssertUnwindSafe(|| i2.step(0, 1))) {
+            Ok(Ok(v3)) => { out.nontrivial += 1; let c3 = canon(&v3); if c3 != c1 { out.fail(format!("C06|different-result|solved-once-in-fresh-interpreter|{}", fam_key(&p.family)), case.clone(), format!("interpreter: {} ; bytecode in a fresh interpreter after one solve of the rebuilt plan: {}", c1.short(), c3.short())); } else { out.count("rebuilt_plan_solved_once_agrees"); } }
+            Ok(Err(_)) => out.count("rebuilt_plan_step_error"),
+            Err(pn) => { out.fail(format!("C06|panic|solve-in-fresh-interpreter|{}", fam_key(&p.family)), case.clone(), panic_msg(pn)); }
+          }
+        }
         if unit % 53 == 0 { out.sample(json!({"program": case, "interpreter": c1.short(), "bytecode": c2.short(), "bytes": bytes.len()})); }
       }
       Ok(Err(e)) => {
